@@ -424,7 +424,9 @@ where
     async fn get_rx_packet_status(&mut self) -> Result<PacketStatus, RadioError> {
         let snr = {
             let packet_snr = self.read_register(Register::RegPktSnrValue).await?;
-            packet_snr as i8 as i16 / 4
+            // rounded to the nearest dB like the reference driver; truncating towards
+            // zero put the SNR-corrected packet RSSI up to 1.2 dB off
+            (packet_snr as i8 as i16 + 2) >> 2
         };
 
         let rssi = {
